@@ -35,7 +35,10 @@ ASSUMPTIONS = [
 TRUSTED = ['CPython audit hooks']
 PARTIAL = 'effect discipline of the model proved; absence of evaluation in the interpreter observed via audit events'
 _cache = {}
-CANARY_DIR = os.path.join(tempfile.gettempdir(), 'c16_canary')
+# one canary folder per harness process: several checks of this property may run at the same time (a sweep in the background)
+CANARY_DIR = os.path.join(tempfile.gettempdir(), 'c16_canary_%d' % os.getpid())
+import atexit  # noqa: E402
+atexit.register(lambda: shutil.rmtree(CANARY_DIR, ignore_errors=True))
 
 PAYLOADS = [
     ('expr', "__import__('os').system('touch {canary}')"),
